@@ -289,6 +289,7 @@ pub fn scenario_b(idx: usize, seed: u64) -> ScenarioResult {
         let mut succ_checks = 0u64;
         let mut persist_checks = 0u64;
         let mut recover_checks = 0u64;
+        let mut rotation_restarts = 0u64;
 
         // a helper that waits until N lists p or the deadline passes
         async fn wait_listed(net: &anemo::Network, p: PeerId, deadline_us: u64, log: &world::Log) -> bool {
@@ -304,16 +305,21 @@ pub fn scenario_b(idx: usize, seed: u64) -> ScenarioResult {
         }
         // stagger the insertions
         tokio::time::sleep(Duration::from_millis(rng.gen_range(0..3_000))).await;
-        for p in &peers {
+        // some peers are listed with a dead address first: the first attempt fails, the second
+        // (next address in rotation) succeeds; after a later loss the rotation starts at 0 again
+        let two_addr: Vec<bool> = (0..np).map(|_| rng.gen_bool(0.4)).collect();
+        let dead_of = |k: usize| bh_addr(idx, 500 + k);
+        for (k, p) in peers.iter().enumerate() {
             n.net.known_peers().insert(PeerInfo {
                 peer_id: p.peer_id,
                 affinity: PeerAffinity::High,
-                address: vec![p.addr.into()],
+                address: if two_addr[k] { vec![dead_of(k).into(), p.addr.into()] } else { vec![p.addr.into()] },
             });
         }
+        let via_dead = ct + (iv + jit) + m.min(b) + (iv + jit);
         let e = w.now();
         for (k, p) in peers.iter().enumerate() {
-            let dl = e + iv + jit + t_connect;
+            let dl = e + iv + jit + t_connect + if two_addr[k] { via_dead } else { 0 };
             succ_checks += 1;
             if !wait_listed(&n.net, p.peer_id, dl, &w.log).await {
                 problems.push(format!(
@@ -344,16 +350,32 @@ pub fn scenario_b(idx: usize, seed: u64) -> ScenarioResult {
                     break;
                 }
                 let lost_at = w.now();
-                let dl = lost_at + iv + jit + t_connect;
+                let dl = lost_at + iv + jit + t_connect + if two_addr[k] { via_dead } else { 0 };
                 persist_checks += 1;
                 let ok = wait_listed(&n.net, p.peer_id, dl, &w.log).await;
+                if two_addr[k] {
+                    // the failures before the last success do not count any more: rotation restarts
+                    let tap = w.fabric.tap_since(0);
+                    let mut sx = HashMap::new();
+                    let first_after = attempts_from_tap(&tap, n.addr, &mut sx, gap)
+                        .into_iter()
+                        .find(|a| a.t + 1_000 >= lost_at && (a.dst == p.addr || a.dst == dead_of(k)));
+                    rotation_restarts += 1;
+                    if let Some(a) = first_after {
+                        if a.dst != dead_of(k) {
+                            problems.push(format!(
+                                "peer #{k} (addresses [dead, live]): after its connection was lost the first new attempt went to address 1, not to the first address (the consecutive-failure count was not reset by the success)"
+                            ));
+                        }
+                    }
+                }
                 trace.push(format!("t={}ms round {round}: peer #{k} closed; reconnected={ok}", w.now() / 1000));
                 if !ok {
                     problems.push(format!(
                         "connection to High peer #{k} lost at {lost_at} us but not re-established within interval+1s+connect"
                     ));
                 }
-            } else {
+            } else if !two_addr[k] {
                 // recovery after k failures: black-hole the peer for a while, drop the connection
                 w.fabric.isolate(p.addr);
                 let _ = n.net.disconnect(p.peer_id);
@@ -453,6 +475,7 @@ pub fn scenario_b(idx: usize, seed: u64) -> ScenarioResult {
             .count("bounded_success_checks", succ_checks)
             .count("persistence_checks", persist_checks)
             .count("recovery_after_failures_checks", recover_checks)
+            .count("rotation_restart_checks", rotation_restarts)
     })
 }
 
@@ -489,6 +512,6 @@ pub fn run(ctx: &Ctx) -> i32 {
         extra: Default::default(),
         exhaustive: None,
         min_signatures: 10,
-        required_counters: vec!["dial_attempts_observed", "spacing_checks", "rotation_checks", "bounded_success_checks", "persistence_checks", "recovery_after_failures_checks", "cap_limited_scenarios"],
+        required_counters: vec!["dial_attempts_observed", "spacing_checks", "rotation_checks", "bounded_success_checks", "persistence_checks", "recovery_after_failures_checks", "rotation_restart_checks", "cap_limited_scenarios"],
     })
 }
